@@ -492,9 +492,9 @@ Definition regroup (bold bnew : Z) (r : list Z) : list Z :=
 
 (* The cursor as a screen of format fmt finds it when its rich form was derived by the library
    (rfbMakeRichCursorFromXCursor) on a screen whose pixels have [tag] bytes (None: not derived).
-   v_cache = false: the tree - the cached bytes are read with the new pixel size;
-   v_cache = true: proposed repair notes/fix_C15_4.diff - every screen has its own copy of the built-in
-   cursor, a derived rich form is never inherited from another screen. *)
+   v_cache = true: the tree since /repo commit 8f58d2d - every screen has its own copy of the built-in
+   cursor, a derived rich form is never inherited from another screen;
+   v_cache = false: before it (F15d) - the cached bytes are read with the new pixel size. *)
 Definition use_shared (v_cache : bool) (tag : option Z) (fmt : pixfmt) (c : cursor) : cursor :=
   match tag, crich c with
   | Some bold, Some r =>
